@@ -3,7 +3,8 @@
 (*                                                                                                  *)
 (*   FSM apply of log entry i  --commit hook(s)-->  in-channel  --writeToBatcher (filter)-->        *)
 (*   batcher  --mainLoop-->  FIFO (key = highest label, keys <= highest-ever silently dropped)      *)
-(*   --leader loop (cursor, retry until sent)-->  endpoint;  on success hwm := key;                 *)
+(*   --leader loop (a goroutine started / stopped by mainLoop as it handles the QUEUED leadership    *)
+(*   signals; parked batch first, FIFO cursor, retry until sent)-->  endpoint;  on success hwm := key *)
 (*   leaderHWMLoop: broadcast hwm, prune own FIFO <= hwm;  followerLoop: prune <= received, adopt.  *)
 (*   Snapshot sync: batcher flushed into the FIFO before the log is truncated.                      *)
 (*   Restart: in-channel and batcher lost, log re-applied from the snapshot index, FIFO and its      *)
